@@ -632,7 +632,12 @@ def _cases(tier, seed):
         for k in range(12000 if tier == "quick" else 400000):
             yield {"gen": "program", "k": k}
 
-    gens = [(sweep(), 4), (oom(), 1), (programs(), 8)]
+    def repotests():
+        if tier == "thorough":
+            for mod in REPO_TEST_MODULES:
+                yield {"gen": "repotests", "module": mod}
+
+    gens = [(repotests(), 1), (sweep(), 4), (oom(), 1), (programs(), 8)]
     live = True
     while live:
         live = False
@@ -1113,7 +1118,61 @@ def run_oom(case, ctx):
     ctx.count("oom-calls")
 
 
+# The repository's own test modules as an extra driver (thorough tier): they are run against /repo's code on the
+# ASan+UBSan build; only sanitizer reports / aborts count (a failing assertion of a test is not our oracle).
+REPO_TEST_MODULES = ["test_lowlevel", "test_tables", "test_file_format", "test_fileobj", "test_dict_encoding",
+                     "test_table_transforms", "test_genotypes", "test_parsimony", "test_ibd", "test_ld_matrix",
+                     "test_divmat", "test_coalrate", "test_stats", "test_tree_positioning", "test_topology",
+                     "test_metadata", "test_text_formats", "test_phylo_formats", "test_vcf", "test_combinatorics",
+                     "test_extend_haplotypes", "test_relatedness_vector", "test_distance_metrics", "test_balance_metrics",
+                     "test_reference_sequence", "test_utilities", "test_util", "test_intervals", "test_wright_fisher",
+                     "test_highlevel", "test_tree_stats"]
+# the private Li-Stephens classes are out of scope (DESIGN section 0)
+REPO_TEST_DESELECT = "not LsHmm and not CompressedMatrix and not ViterbiMatrix and not haplotype_matching"
+
+
+def run_repotests(case, ctx):
+    import subprocess
+    import sys
+    repo = os.environ.get("VERIF_REPO", "/repo")
+    mod = case["module"]
+    path = os.path.join(repo, "python", "tests", mod + ".py")
+    ctx.sig(("repotests", mod), nontrivial=True)
+    if not os.path.exists(path):
+        ctx.feature("repotests-missing:" + mod)
+        return
+    env = dict(os.environ, PYTHONDONTWRITEBYTECODE="1")
+    env["PYTHONPATH"] = os.pathsep.join([os.environ["VERIF_BUILDDIR"], os.path.join(repo, "python")])
+    ctx.step(f"repotests: {mod}")
+    import faulthandler
+    faulthandler.cancel_dump_traceback_later()  # the subprocess below has its own (much longer) timeout
+    cmd = [sys.executable, "-m", "pytest", "-q", "-p", "no:cacheprovider", "-x", "--maxfail=1000", "-k", REPO_TEST_DESELECT,
+           os.path.join("tests", mod + ".py")]
+    try:
+        r = subprocess.run(cmd, cwd=os.path.join(repo, "python"), env=env, capture_output=True, text=True, timeout=3000)
+    except subprocess.TimeoutExpired:
+        ctx.feature("repotests-timeout:" + mod)
+        return
+    out = r.stdout + r.stderr
+    ctx.count("repotests-modules")
+    import re as _re
+    m = _re.search(r"(\d+) passed", out)
+    ctx.count("repotests-tests-passed", int(m.group(1)) if m else 0)
+    rep = _re.search(r"ERROR: AddressSanitizer: ([\w-]+)|runtime error: ([^\n]*)|Bug detected in (\S+) at line", out)
+    if rep or r.returncode < 0:
+        frames = _re.findall(r"#\d+ 0x[0-9a-f]+ in (\w+) [^\n]*?/(?:c/tskit|python|c/subprojects/kastore)/", out)
+        test = _re.findall(r"(tests/\S+::\S+)", out)
+        kind = (rep.group(1) or rep.group(2) or "bug-assert") if rep else f"signal{-r.returncode}"
+        kind = _re.sub(r"0x[0-9a-f]+|\d+", "N", kind)[:50].replace(" ", "-")
+        pos = rep.start() if rep else max(0, len(out) - 2500)
+        ctx.violation(f"crash/repotests/{kind}/{frames[0] if frames else '?'}",
+                      f"sanitizer report / abort while running the repository's own {mod}.py on the ASan build "
+                      f"(last test seen: {test[-1] if test else '?'})", out[max(0, pos - 300):pos + 2500])
+
+
 def run_case(case, ctx):
+    if case["gen"] == "repotests":
+        return run_repotests(case, ctx)
     if not hasattr(ctx, "step"):
         ctx.step = lambda d: None
     if case["gen"] == "sweep":
